@@ -31,29 +31,6 @@ Definition owns_ready (t : thr) : bool :=
 Definition ready_inv (s : fpair) : Prop :=
   forall w, n_st (node_of w (f_p s)) = Ready -> existsb owns_ready (thrs_of w s) = true.
 
-Lemma hb_core_not_ready v pre first st mst w : st <> Ready -> hb_core v pre first st mst w <> Ready.
-Proof.
-  destruct v as [fh fi ff fs fa]. intros H.
-  destruct st; try congruence; destruct first, pre, fh, ff, fs, mst, w; cbn; discriminate.
-Qed.
-
-Lemma coarse_not_ready v cs p e w :
-  n_st (node_of w p) <> Ready -> n_st (step_node_fn v cs p e w) <> Ready.
-Proof.
-  intros H. unfold step_node_fn.
-  destruct e as [w'|w'|w' i|w' i|w'|w' k d|w' f|w']; try exact H; destruct (who_eqb w w'); try exact H.
-  - destruct (start_facts (node_of w p)) as (_ & _ & Hs). rewrite Hs. destruct (n_st (node_of w p)); congruence.
-  - destruct (nth_error _ _) as [m|]; [|exact H]. rewrite handle_hb_spec. cbn [n_st]. now apply hb_core_not_ready.
-  - destruct (peer_lost_facts (node_of w p)) as (_ & _ & Hs). rewrite Hs.
-    destruct (n_st (node_of w p)); try congruence. destruct (0 <? _); discriminate.
-  - destruct (if_facts v (cfg_of w cs) (node_of w p) k d) as (_ & Hs & _). rewrite Hs.
-    destruct (_ && _ && _); [discriminate | exact H].
-  - destruct (switchover_facts (node_of w p) f) as (_ & _ & Hs). rewrite Hs.
-    destruct (n_st (node_of w p)), f; congruence.
-  - destruct (switchover_facts (node_of w p) false) as (_ & _ & Hs). rewrite Hs.
-    destruct (n_st (node_of w p)); congruence.
-Qed.
-
 Definition next_owns (nx : option thr) : bool := match nx with Some t' => owns_ready t' | None => false end.
 
 Ltac split_ifs :=
@@ -282,7 +259,7 @@ Lemma coarse_eff_ok v cs p e w :
   eff_ok (cfg_of w cs) (node_of w p) -> eff_ok (cfg_of w cs) (step_node_fn v cs p e w).
 Proof.
   intros H. unfold step_node_fn.
-  destruct e as [w'|w'|w' i|w' i|w'|w' k d|w' f|w']; try exact H; destruct (who_eqb w w'); try exact H.
+  destruct e as [w'|w'|w' i|w' i|w'|w' k d|w' f|w'|w' i]; try exact H; destruct (who_eqb w w'); try exact H.
   - eapply same_track_eff_ok; [apply start_facts | exact H].
   - destruct (nth_error _ _) as [m|]; [|exact H]. eapply same_track_eff_ok; [apply hb_facts | exact H].
   - eapply same_track_eff_ok; [apply peer_lost_facts | exact H].
@@ -292,6 +269,7 @@ Proof.
     + now rewrite (Hun eq_refl).
   - eapply same_track_eff_ok; [apply switchover_facts | exact H].
   - eapply same_track_eff_ok; [apply switchover_facts | exact H].
+  - destruct (nth_error _ _); exact H.
 Qed.
 
 Definition eff_inv (cs : cfgs) (s : fpair) : Prop :=
